@@ -190,7 +190,7 @@ func runC14(r *simrt.Run) {
 	w.Net.Gossip = false
 	wl := nomsim.NewWorkload(w, mode)
 	wl.MaxOps = 1 + t.Choose(4)
-	scenario := t.Choose(3)
+	scenario := t.Choose(4)
 	switch scenario {
 	case 0:
 		c14Sequential(r, w, wl)
@@ -198,8 +198,10 @@ func runC14(r *simrt.Run) {
 		c14ReadersVsInserter(r, w, wl)
 	case 2:
 		c14PillarVsSync(r, w, wl)
+	case 3:
+		c14ReadersVsReorg(r, w, wl)
 	}
-	r.Sample["scenario"] = []string{"sequential-model", "readers-vs-inserter", "pillar-vs-sync"}[scenario]
+	r.Sample["scenario"] = []string{"sequential-model", "readers-vs-inserter", "pillar-vs-sync", "readers-vs-reorg"}[scenario]
 }
 
 // ---- W/O 1: sequential operations against the model, two nodes in opposite orders ----
@@ -663,11 +665,190 @@ func c14ReadersVsInserter(r *simrt.Run, w *nomsim.World, wl *nomsim.Workload) {
 	if f.Height() == p.Height() {
 		compareNodes(r, "same-momentums-different-state", p, f, nil)
 	}
+	poolOnHead(r, f, addrList, "after readers vs inserter")
 	r.Probes["schedule-steps"] += s.Steps
 	r.NonTrivial = s.Steps >= 20
 	r.Finger = fmt.Sprintf("rvi-%s", r.Digest())
 	r.Sample["schedule_steps"] = s.Steps
 	r.Sample["readers"] = nReaders
+}
+
+// poolOnHead: for every account the pooled blocks form one chain that starts on the account's confirmed
+// head, and the pool's frontier store stands on the last of them (on the confirmed head if none).
+func poolOnHead(r *simrt.Run, n *simnode.Node, addrs []types.Address, where string) {
+	for _, a := range addrs {
+		head := n.Chain.GetFrontierMomentumStore().GetAccountStore(a).Identifier()
+		got := n.Chain.GetUncommittedAccountBlocksByAddress(a)
+		link := head
+		for _, b := range got {
+			if b.PreviousHash != link.Hash || b.Height != link.Height+1 {
+				r.Fail("pool-not-a-chain", where, "%s: the pool of %v on node %s is not a chain on its confirmed head %d/%v: %s", where, a, n.Name, head.Height, head.Hash, blockList(got))
+			}
+			link = b.Identifier()
+		}
+		if pf := n.Chain.GetFrontierAccountStore(a).Identifier(); pf != link {
+			r.Fail("pool-frontier-off-chain", where, "%s: the pool frontier of %v on node %s is %d/%v, but its confirmed head is %d/%v and the pooled chain ends at %d/%v", where, a, n.Name, pf.Height, pf.Hash, head.Height, head.Hash, link.Height, link.Hash)
+		}
+		r.Probe("pool-on-head-checked")
+	}
+}
+
+// ---- W/O 3c: pool readers against a reorganisation ----
+
+// c14ReadersVsReorg: an observer on the shorter branch adopts the longer one through InsertChain
+// (rollback, then insertion) while readers look at the pools of the accounts whose blocks are being
+// abandoned or adopted; the scheduler decides who runs at every lock site.
+func c14ReadersVsReorg(r *simrt.Run, w *nomsim.World, wl *nomsim.Workload) {
+	t := r.T
+	f := nomsim.NewFork(w, wl, t.Choose(6), true, true)
+	f.Common(3+t.Choose(8), true)
+	f.Split(2+t.Choose(8), true, true)
+	win, lose, ok := f.Longer()
+	for tries := 0; !ok && tries < 40; tries++ {
+		w.StepSlot()
+		w.Net.Flush()
+		win, lose, ok = f.Longer()
+	}
+	if !ok {
+		r.Skip("branches-stayed-equal")
+		return
+	}
+	x := f.XB
+	if lose == f.A {
+		x = f.XA
+	}
+	w.Net.Gossip = false
+	base := nomsim.CommonAncestor(x, win)
+	depth := x.Height() - base
+	if depth == 0 || depth > 30 || win.Height() <= x.Height() {
+		r.Skip("no-reorganisation-to-race")
+		return
+	}
+	batch := win.Batch(base+1, win.Height())
+	addrs := map[types.Address]bool{}
+	known := map[types.Hash]bool{}
+	note := func(d *nom.DetailedMomentum) {
+		if d == nil {
+			return
+		}
+		for _, b := range d.AccountBlocks {
+			addrs[b.Address] = true
+			known[b.Hash] = true
+		}
+	}
+	for h := base + 1; h <= x.Height(); h++ {
+		note(x.Detailed(h))
+	}
+	for _, d := range batch {
+		note(d)
+	}
+	for _, b := range x.Chain.GetAllUncommittedAccountBlocks() {
+		addrs[b.Address] = true
+		known[b.Hash] = true
+	}
+	var addrList []types.Address
+	for a := range addrs {
+		addrList = append(addrList, a)
+	}
+	sortAddrs(addrList)
+	if len(addrList) == 0 {
+		r.Skip("no-traffic")
+		return
+	}
+	sc := sched.New(r)
+	switch t.Choose(3) {
+	case 1:
+		sc.Sticky = 70
+	case 2:
+		sc.Sticky = 92
+	}
+	var viol []string
+	report := func(clause, disc, msg string) { viol = append(viol, clause+"\x00"+disc+"\x00"+msg) }
+	var idx int
+	var ierr error
+	sc.Go("sync", func() { idx, ierr = x.Bridge.InsertChain(batch) })
+	nReaders := 1 + t.Choose(3)
+	for ri := 0; ri < nReaders; ri++ {
+		var plan []int
+		for i := 0; i < 4+t.Choose(12); i++ {
+			plan = append(plan, t.Choose(3*len(addrList)))
+		}
+		sc.Go(fmt.Sprintf("reader%d", ri), func() {
+			for _, pl := range plan {
+				a := addrList[pl%len(addrList)]
+				switch pl / len(addrList) {
+				case 0:
+					bs := x.Chain.GetUncommittedAccountBlocksByAddress(a)
+					for i, b := range bs {
+						if i > 0 && (b.PreviousHash != bs[i-1].Hash || b.Height != bs[i-1].Height+1) {
+							report("reader-saw-broken-chain", "pool", fmt.Sprintf("%v: %s", a, blockList(bs)))
+						}
+					}
+				case 1:
+					st := x.Chain.GetFrontierAccountStore(a)
+					id := st.Identifier()
+					fr, err := st.Frontier()
+					if err != nil || (fr == nil) != (id.Height == 0) || (fr != nil && fr.Identifier() != id) {
+						report("reader-saw-half-applied-block", "frontier-store", fmt.Sprintf("%v: identifier %v frontier %v err %v", a, id, fr, err))
+					}
+				case 2:
+					_ = x.Chain.GetAllUncommittedAccountBlocks()
+				}
+			}
+		})
+	}
+	panics := sc.Run()
+	for _, pn := range panics {
+		r.Fail("task-panic", "readers-vs-reorg", "%v", pn)
+	}
+	if sc.Deadlock != "" {
+		r.Fail("deadlock", "readers-vs-reorg", "%s", sc.Deadlock)
+	}
+	for _, v := range viol {
+		parts := bytes.SplitN([]byte(v), []byte{0}, 3)
+		r.Fail(string(parts[0]), string(parts[1]), "%s (schedule of %d steps)", parts[2], sc.Steps)
+	}
+	r.Logf("reorg of depth %d under %d readers: idx=%d err=%v, %d steps", depth, nReaders, idx, ierr, sc.Steps)
+	for _, st := range sc.Trace {
+		r.Logf("sched %s", st)
+	}
+	if ierr != nil || idx != 0 {
+		r.Fail("honest-batch-refused", "under-readers", "the observer refused the longer branch [%d..%d] while readers ran: idx=%d err=%v", base+1, win.Height(), idx, ierr)
+	}
+	if x.Frontier().Hash != win.Frontier().Hash {
+		r.Fail("reorged-node-diverges", "under-readers", "observer is at %d/%v, the adopted branch ends at %d/%v", x.Height(), x.Frontier().Hash, win.Height(), win.Frontier().Hash)
+	}
+	r.Fault("reorg-under-readers")
+	// afterwards: every pool stands on the adopted ledger, and the node equals one that never saw the other branch
+	poolOnHead(r, x, addrList, "after a reorganisation under readers")
+	ref := freshFollower(r, w, "R", win, 64)
+	compareNodes(r, "reorged-node-differs-from-fresh", ref, x, nil)
+	// whatever the observer still pools is acceptable to the fresh node
+	for _, b := range x.Chain.GetAllUncommittedAccountBlocks() {
+		if b.BlockType == nom.BlockTypeContractSend {
+			continue
+		}
+		if err := ref.Bridge.AddAccountBlocks([]*nom.AccountBlock{b}); err != nil {
+			r.Fail("pool-trace", "unacceptable-block", "block %v/%d left in the observer's pool is refused by a fresh node: %v", b.Address, b.Height, err)
+		}
+	}
+	// and the observer keeps following: the winner's next momentums apply
+	for i := 0; i < 2; i++ {
+		wl.Ops(win)
+		w.StepSlot()
+	}
+	if win.Height() > x.Height() {
+		if idx, err := x.Bridge.InsertChain(win.Batch(x.Height()+1, win.Height())); err != nil || idx != 0 {
+			r.Fail("honest-batch-refused", "after-reorg", "after the reorganisation the observer refuses the next momentums: idx=%d err=%v", idx, err)
+		}
+		poolOnHead(r, x, addrList, "after following the adopted branch")
+	}
+	r.Probes["schedule-steps"] += sc.Steps
+	r.NonTrivial = sc.Steps >= 20
+	r.Finger = fmt.Sprintf("rvr-%s", r.Digest())
+	r.Sample["schedule_steps"] = sc.Steps
+	r.Sample["readers"] = nReaders
+	r.Sample["depth"] = depth
 }
 
 func sortAddrs(a []types.Address) {
